@@ -203,6 +203,7 @@ JcLib(w) ==
      \/ \E t \in Tag : UJcWaitRet(w, t, J1, ND) \/ UJcDecRet(w, t, J1)
 UncondLib(w) ==
      \/ \E d \in D : UcPub(w, U1, d) \/ UcLd(w, U1, d)
+     \/ \E d \in D \cup {0} : UcCbLd(w, U1, d)
      \/ UcClr(w, U1, 0)
      \/ \E t \in Tag : UUcWaitRet(w, t, U1) \/ UUcSignalRet(w, t, U1)
 OnceLib(w) ==
